@@ -29,7 +29,7 @@ fn from_fields(f: &[u64]) -> Option<Vec<u64>> {
 fn expect_inline<S: USet>(e: &mut Eng<S>, i: usize, what: &str, members: &[u64]) {
     let (heap, cap, mem) = {
         let s = e.slots[i].as_ref().unwrap();
-        (s.repr().1.is_some(), s.capacity(), s.mem_used())
+        (s.header().1.is_some(), s.capacity(), s.mem_used())
     };
     let (blocks, _) = alloc::live();
     if heap || cap != 0 || mem != 8 || blocks != 0 {
@@ -121,15 +121,18 @@ pub fn dense_footprints<S: USet>(e: &mut Eng<S>, hists: usize) {
         ns.extend_from_slice(&[65535, 65536, 65537, 100000]);
     }
     if hists > 200 {
-        ns.extend_from_slice(&[1 << 18, (1 << 20) - 1, 1 << 20, (1 << 20) + 1, 3 << 20, (1 << 22) - 1, 1 << 22]);
+        ns.extend_from_slice(&[1 << 18, (1 << 20) - 1, (1 << 20) + 1, 3 << 20, 1 << 22]);
     }
-    for _ in 0..hists / 4 {
-        let n = 64 + e.rng.below(if hists > 200 { 1 << 20 } else { 20000 });
+    for _ in 0..(hists / 4).min(24) {
+        let n = 64 + e.rng.below(if hists > 200 { 1 << 18 } else { 20000 });
         ns.push(n);
     }
     for (hn, &n) in ns.iter().enumerate() {
         let quiet = n > 1500;
         for order in 0..8 {
+            if n > (1 << 18) && !matches!(order, 0 | 1 | 3 | 6) {
+                continue;
+            }
             e.begin(&format!("dense-n{}-o{}-{}", n, order, hn));
             let saved = e.mode;
             if quiet && e.mode != Mode::Unscripted {
@@ -199,12 +202,15 @@ pub fn dense_footprints<S: USet>(e: &mut Eng<S>, hists: usize) {
                 }
             };
             e.check_c11 = true;
+            let t_start = std::time::Instant::now();
             if order == 0 {
                 e.op_collect(0, &seq);
             } else {
                 e.op_new(0);
                 // fix the growth style for the whole build: minimal, maximal or random
-                e.draw_style = [0, 1, 4, 4][e.rng.below(4) as usize];
+                // (minimal growth makes the crate rebuild the table once per new bucket: quadratic, so only for small n)
+                e.draw_style = if n > (1 << 14) { [1, 4][e.rng.below(2) as usize] } else { [0, 1, 4, 4][e.rng.below(4) as usize] };
+                e.force_style = Some(e.draw_style);
                 for &x in &seq {
                     e.op_ins(0, x);
                 }
@@ -223,6 +229,9 @@ pub fn dense_footprints<S: USet>(e: &mut Eng<S>, hists: usize) {
                 e.fail("C12", format!("0..{} inserted in order {}: the set owns {} heap bytes, more than 2 bytes per member + 256 ({})", n, order, bytes, 2 * n + 256));
             }
             e.bump(&format!("dense:order{}", order));
+            if n >= (1 << 16) && std::env::var("TS_TIMING").is_ok() {
+                eprintln!("HTIME n={} order={} style={} ms={}", n, order, e.draw_style, t_start.elapsed().as_millis());
+            }
             e.quiet = false;
             e.mode = saved;
             if n <= 1500 {
@@ -532,7 +541,71 @@ pub fn serde_sequence<S: USet>(e: &mut Eng<S>, k: usize, v: &[u64]) {
     e.post_check();
 }
 
+/// boundary sizes and repetition patterns that random short histories do not reach
+pub fn sizes<S: USet>(e: &mut Eng<S>, thorough: bool) {
+    // collect / extend of exactly n distinct small values, n around 255..257, 511..513, 1023..1025 (and 65535.. in thorough)
+    let mut ns: Vec<u64> = (250..=264).chain(508..=516).chain(1022..=1026).collect();
+    if thorough {
+        ns.extend(65530..=65542);
+    }
+    for &n in &ns {
+        e.begin(&format!("sizes-collect-{}", n));
+        let v: Vec<u64> = (0..n).map(|k| (k * 7919) % n).collect(); // a permutation-like order with all of 0..n
+        let mut w: Vec<u64> = (0..n).collect();
+        w.reverse();
+        e.op_collect(0, &w);
+        e.op_new(1);
+        e.op_extend(1, &v);
+        e.op_eq(0, 1);
+        e.op_obs(0);
+        e.op_iter(0);
+        // the same number of distinct values, sparse, with one far outlier
+        let sp: Vec<u64> = (0..n).map(|k| k * 97).chain(std::iter::once(S::max_elem() - 3)).collect();
+        e.op_collect(2, &sp);
+        e.op_obs(2);
+    }
+    // heavy repetition: thousands of items, few distinct values
+    for (distinct, reps, top) in [(10u64, 300u64, 40_000u64), (60, 50, 40_000), (258, 12, 5000), (5, 2000, 3_000_000 & S::max_elem())] {
+        e.begin(&format!("sizes-repeat-{}x{}", distinct, reps));
+        let mut v = vec![];
+        for r in 0..reps {
+            for k in 0..distinct {
+                v.push((k * (top / distinct) + (r % 2) * 0) & S::max_elem());
+            }
+        }
+        e.op_collect(0, &v);
+        e.op_obs(0);
+        e.op_new(1);
+        e.op_extend(1, &v);
+        e.op_eq(0, 1);
+    }
+    // a large dense set grown in place, cloned, drained, dropped (block sizes beyond a page)
+    for n in [40_000u64, 70_000] {
+        e.begin(&format!("sizes-bigdense-{}", n));
+        e.quiet = true;
+        e.script_len = 16;
+        let v: Vec<u64> = (0..n).collect();
+        e.op_collect(0, &v);
+        for x in [n + 10, n + 5000, n + 5001, 2 * n, 2 * n + 64, 3 * n] {
+            e.op_ins(0, x);
+        }
+        e.op_clone(1, 0);
+        e.op_ins(1, 4 * n);
+        e.op_rem(0, 17);
+        e.op_eq(0, 1);
+        e.op_binop(4, 0, 1, true, false);
+        e.op_drain(1, Some(100));
+        e.op_drop(4);
+        e.op_drop(0);
+        e.op_drop(1);
+        e.quiet = false;
+    }
+}
+
 pub fn fixed<S: USet>(e: &mut Eng<S>, profile: &str) {
+    if matches!(profile, "collect" | "mem" | "alloc") {
+        sizes(e, false);
+    }
     // replay corpus: the inputs of the past findings (DESIGN.md section 6) run first in every profile
     e.begin("corpus-D1-dup-collect");
     e.op_collect(0, &[5, 5]);
